@@ -957,3 +957,101 @@ silent('c15-eq-isinstance-drop', 'C15',
                  isinstance(other, self.__class__))):""", """                str(self.check) == str(other.check) and
                 (isinstance(self, other.__class__) or
                  isinstance(other, self.__class__) or False)):""")])
+
+# ------------------------------------------------------------------ C16
+fire('c16-lower-true', 'C16',
+     [(EXT, """                return r.text.lstrip('"').rstrip('"') == 'True'
+        except Timeout:
+            raise RuntimeError("Timeout in REST API call")
+
+    @staticmethod""", """                return r.text.lstrip('"').rstrip('"').lower() == 'true'
+        except Timeout:
+            raise RuntimeError("Timeout in REST API call")
+
+    @staticmethod""")], 'C16.DECIDE')
+fire('c16-true-in-text', 'C16',
+     [(EXT, """                return r.text.lstrip('"').rstrip('"') == 'True'
+        except Timeout:
+            raise RuntimeError("Timeout in REST API call")
+
+    @staticmethod""", """                return 'True' in r.text
+        except Timeout:
+            raise RuntimeError("Timeout in REST API call")
+
+    @staticmethod""")], 'C16.DECIDE')
+fire('c16-https-strip-ws', 'C16',
+     [(EXT, """                                  timeout=timeout)
+            ) as r:
+                return r.text.lstrip('"').rstrip('"') == 'True'""", """                                  timeout=timeout)
+            ) as r:
+                return r.text.strip().lstrip('"').rstrip('"') == 'True'""")], 'C16.DECIDE')
+fire('c16-timeout-false', 'C16',
+     [(EXT, """        except Timeout:
+            raise RuntimeError("Timeout in REST API call")
+
+    @staticmethod""", """        except Timeout:
+            return False
+
+    @staticmethod""")], 'C16.NO-ALLOW-ON-ERROR')
+fire('c16-timeout-true-https', 'C16',
+     [(EXT, """                return r.text.lstrip('"').rstrip('"') == 'True'
+        except Timeout:
+            raise RuntimeError("Timeout in REST API call")
+""", """                return r.text.lstrip('"').rstrip('"') == 'True'
+        except Timeout:
+            return True
+""", 1) if False else (EXT, """                                  timeout=timeout)
+            ) as r:
+                return r.text.lstrip('"').rstrip('"') == 'True'
+        except Timeout:
+            raise RuntimeError("Timeout in REST API call")""", """                                  timeout=timeout)
+            ) as r:
+                return r.text.lstrip('"').rstrip('"') == 'True'
+        except Timeout:
+            return True""")], 'C16.NO-ALLOW-ON-ERROR')
+fire('c16-swapped-rule-target', 'C16',
+     [(EXT, "            json = {'rule': current_rule,\n                    'target': temp_target,", "            json = {'rule': temp_target,\n                    'target': current_rule,")], 'C16.PAYLOAD')
+fire('c16-target-mutated', 'C16',
+     [(EXT, "            if type(element) is object:\n                temp_target[key] = {}", "            if type(element) is object:\n                target[key] = {}")], 'C16.TARGET-RO')
+fire('c16-payload-raw-target', 'C16',
+     [(EXT, "        temp_target = copy.deepcopy(target)", "        temp_target = target")], 'C16')
+fire('c16-url-no-subst', 'C16',
+     [(EXT, "        url = ('http:' + self.match) % target", "        url = 'http:' + self.match")], 'C16.URL')
+fire('c16-https-as-http', 'C16',
+     [(EXT, "        url = ('https:' + self.match) % target", "        url = ('http:' + self.match) % target")], 'C16.URL')
+fire('c16-creds-dropped', 'C16',
+     [(EXT, "                    'credentials': jsonutils.dumps(creds)}", "                    'credentials': jsonutils.dumps({})}")], 'C16.PAYLOAD')
+fire('c16-data-json-swapped', 'C16',
+     [(EXT, "                    requests.post(url, json=json, data=data, timeout=timeout)", "                    requests.post(url, json=data, data=json, timeout=timeout)")], 'C16.PAYLOAD')
+fire('c16-entry-point', 'C16',
+     [('setup.cfg', "    https = oslo_policy._external:HttpsCheck", "    https = oslo_policy._external:HttpCheck")], 'C16')
+silent('c16-strip-call', 'C16',
+       [(EXT, """                return r.text.lstrip('"').rstrip('"') == 'True'
+        except Timeout:
+            raise RuntimeError("Timeout in REST API call")
+
+    @staticmethod""", """                return r.text.strip('"') == 'True'
+        except Timeout:
+            raise RuntimeError("Timeout in REST API call")
+
+    @staticmethod"""), (EXT, """                                  timeout=timeout)
+            ) as r:
+                return r.text.lstrip('"').rstrip('"') == 'True'""", """                                  timeout=timeout)
+            ) as r:
+                return r.text.strip('"') == 'True'""")])
+silent('c16-no-timeout-handler', 'C16',
+       [(EXT, """        try:
+            with contextlib.closing(
+                    requests.post(url, json=json, data=data, timeout=timeout)
+            ) as r:
+                return r.text.lstrip('"').rstrip('"') == 'True'
+        except Timeout:
+            raise RuntimeError("Timeout in REST API call")""", """        with contextlib.closing(
+                requests.post(url, json=json, data=data, timeout=timeout)
+        ) as r:
+            return r.text.lstrip('"').rstrip('"') == 'True'""")])
+silent('c16-tls-precheck-removed', 'C16',
+       [(EXT, """            if not os.access(cert_file, os.R_OK):
+                raise RuntimeError(
+                    _("Unable to access ssl cert_file  : %s") % cert_file)
+""", "")])
